@@ -3,6 +3,8 @@
 package vm
 
 import (
+	"sync/atomic"
+
 	"github.com/risor-io/risor/compiler"
 	"github.com/risor-io/risor/object"
 	"github.com/risor-io/risor/op"
@@ -18,6 +20,34 @@ func (vm *VirtualMachine) verifStep(opcode op.Code) {
 		VerifStep(vm, opcode)
 	}
 }
+
+// Hook kinds passed to VerifPoint.
+const (
+	VerifCtxWait   = 10 // obj = the context's done channel; in the watcher goroutine, before waiting on it
+	VerifHaltStore = 11 // obj = the same channel; in the watcher goroutine, before it stores the halt flag
+)
+
+// VerifGo and VerifPoint follow the conventions of the object package's hooks
+// (phases: 0 announce, 1 start, 2 end, 3 spawned). Set once, before any VM runs.
+var (
+	VerifGo    func(phase int)
+	VerifPoint func(kind int, obj any, vm *VirtualMachine)
+)
+
+func verifGo(phase int) {
+	if VerifGo != nil {
+		VerifGo(phase)
+	}
+}
+
+func verifPoint(kind int, obj any, vm *VirtualMachine) {
+	if VerifPoint != nil {
+		VerifPoint(kind, obj, vm)
+	}
+}
+
+// VerifHalted reports whether the halt flag is set.
+func (vm *VirtualMachine) VerifHalted() bool { return atomic.LoadInt32(&vm.halt) == 1 }
 
 // VerifSP returns the stack pointer (index of the top of stack, -1 when empty).
 func (vm *VirtualMachine) VerifSP() int { return vm.sp }
